@@ -155,7 +155,7 @@ func init() {
 	})
 	register(&Property{
 		ID: "C27",
-		Explanation: "Decides the identity clause and the shape of the tree rewrite, not which paths a pattern matches (C28): (filter-identity) the node filters built by gatherExcludeFilters and gatherIncludeFilters return their node argument itself or nil, and no literal of these builders stores to a field of data.Node (kept entries keep metadata and data); for --exclude the selection helper returns false exactly on the edge where a reject function returned true for the node's path and the filter keeps the node exactly when the helper, asked about that path, returns true; (rewrite-tree) TreeRewriter.RewriteTree gives the filter item.Node and path.Join(nodepath, node.Name), adds exactly the node the filter returned, moves past a kept node only through AddNode or the edge where the rewritten subtree ID is null, sets a directory's Subtree to the recursive result, starts rewriting only after the tree re-encoded to the same ID (or AllowUnstableSerialization), and memoises old→new IDs only after Finalize succeeded; (rewrite-unchanged) in filterAndReplaceSnapshot, with an identical filtered tree, no metadata change and no recomputed summary, SaveSnapshot is unreachable; (memo-needs-path-independence) TreeRewriter memoises rewritten subtrees by tree ID only, so every construction of a TreeRewriter whose node filter uses the path for its verdict (a comparison, or a call whose result is used — printing does not count), is a function value defined elsewhere, or updates captured variables on each visit, must pass the constant DisableNodeCache: true (NewSnapshotSizeRewriter: yes; repair snapshots: the path is only printed, memo allowed), and NewTreeRewriter creates the memo only with the cache enabled — added after a seeded change that re-enabled the memo for rewrite. Not decided: the include filter's directory handling ('directories leading to matches'), pattern semantics, and summary statistics.",
+		Explanation: "Decides the identity clause and the shape of the tree rewrite, not which paths a pattern matches (C28): (filter-identity) the node filters built by gatherExcludeFilters and gatherIncludeFilters return their node argument itself or nil, and no literal of these builders stores to a field of data.Node (kept entries keep metadata and data); for --exclude the selection helper returns false exactly on the edge where a reject function returned true for the node's path and the filter keeps the node exactly when the helper, asked about that path, returns true; (rewrite-tree) TreeRewriter.RewriteTree gives the filter item.Node and path.Join(nodepath, node.Name), adds exactly the node the filter returned, moves past a kept node only through AddNode or the edge where the rewritten subtree ID is null, sets a directory's Subtree to the recursive result, starts rewriting only after the tree re-encoded to the same ID (or AllowUnstableSerialization), and memoises old→new IDs only after Finalize succeeded; (rewrite-unchanged) in filterAndReplaceSnapshot, with an identical filtered tree, no metadata change and no recomputed summary, SaveSnapshot is unreachable; (memo-needs-path-independence) TreeRewriter memoises rewritten subtrees by tree ID only, so every construction of a TreeRewriter whose node filter uses the path for its verdict (a comparison, or a call whose result is used — printing does not count), is a function value defined elsewhere, or updates captured variables on each visit, must pass the constant DisableNodeCache: true (NewSnapshotSizeRewriter: yes; repair snapshots: the path is only printed, memo allowed), and NewTreeRewriter creates the memo only with the cache enabled — added after a seeded change that re-enabled the memo for rewrite; (rewrite-include-asks-all) the closures of gatherIncludeFilters return a negative answer only after every include function (case-insensitive and case-sensitive patterns) was asked: inside the loop over the functions only `true` is returned — added after a seeded change that let the first function alone decide about directories. Not decided: which directories 'lead to matches' for given patterns, pattern semantics, and summary statistics.",
 		Assumptions: commonAssumptions,
 		Technique:   "static analysis: return-value origin and field-store effects of the filter closures + per-iteration path cuts + specialised path evaluation (go/ssa)",
 		Run: func(c *eng.Ctx) {
@@ -163,8 +163,11 @@ func init() {
 			ruleRewriteTreeShape(c)
 			ruleRewriteUnchanged(c)
 			ruleMemoNeedsPathIndependence(c)
+			ruleRewriteIncludeAsksAll(c)
 		},
 		Controls: []Control{
+			{Name: "files-judged-by-first-include-kind", File: "cmd/restic/cmd_rewrite.go",
+				Old: "			} else if matched {\n				return true\n			}\n		}\n		return false\n	}\n\n	rewriteNode = func", New: "			} else {\n				return matched\n			}\n		}\n		return false\n	}\n\n	rewriteNode = func", Rule: "rewrite-include-asks-all"},
 			{Name: "memo-enabled-for-path-dependent-filter", File: "internal/walker/rewriter.go",
 				Old: "		DisableNodeCache:   true,\n", New: "		DisableNodeCache:   keepEmptyDirectoryFilter != nil,\n", Rule: "memo-needs-path-independence"},
 			{Name: "exclude-filter-clears-content", File: "cmd/restic/cmd_rewrite.go",
@@ -181,14 +184,17 @@ func init() {
 	})
 	register(&Property{
 		ID: "C22",
-		Explanation: "Decides the structure of policy evaluation, not which snapshots a policy selects: (bucket-table) in ApplyPolicy every counting and within field of ExpirePolicy (a field without a row is a violation) is paired with the bucket function of its own granularity (Last↔always, Hourly↔ymdh, Daily↔ymd, Weekly↔yw, Monthly↔ym, Yearly↔y, likewise for the Within* fields), with a reason text naming that granularity and the last-seen bucket starting at -1; the counters reported with a kept snapshot come from the row of the same name; the bucket functions compute their value from exactly the calendar fields of their granularity (y: Year; ym: Year, Month; ymd: Year, Month, Day; ymdh: Year, Month, Day, Hour; yw: ISOWeek) and `always` returns the snapshot's position; (policy-partition) every loop iteration appends the current snapshot to keep or to remove, never to both, every kept snapshot gets one KeepReason, the function returns (keep, remove, reasons), and every field of ExpirePolicy is read. Not decided: the selection itself (counts, 'oldest' rule, within arithmetic), monotonicity, and grouping.",
+		Explanation: "Decides the structure of policy evaluation, not which snapshots a policy selects: (bucket-table) in ApplyPolicy every counting and within field of ExpirePolicy (a field without a row is a violation) is paired with the bucket function of its own granularity (Last↔always, Hourly↔ymdh, Daily↔ymd, Weekly↔yw, Monthly↔ym, Yearly↔y, likewise for the Within* fields), with a reason text naming that granularity and the last-seen bucket starting at -1; the counters reported with a kept snapshot come from the row of the same name; the bucket functions compute their value from exactly the calendar fields of their granularity (y: Year; ym: Year, Month; ymd: Year, Month, Day; ymdh: Year, Month, Day, Hour; yw: ISOWeek) and `always` returns the snapshot's position; (policy-partition) every loop iteration appends the current snapshot to keep or to remove, never to both, every kept snapshot gets one KeepReason, the function returns (keep, remove, reasons), and every field of ExpirePolicy is read; (within-anchor) the anchor of the within windows (findLatestTimestamp) is the zero time or a snapshot's own Time read behind Time.Before(now) — never the clock (added after a seeded change that clamped a future-dated newest snapshot to time.Now(), so that every real snapshot fell out of the window). Not decided: the selection itself (counts, 'oldest' rule, within arithmetic), monotonicity, and grouping.",
 		Assumptions: commonAssumptions,
 		Technique:   "static analysis: literal-table pairing by resolved function objects + per-iteration path cuts over the loop body + struct-field coverage (go/ssa, go/types)",
 		Run: func(c *eng.Ctx) {
 			ruleBucketTable(c)
 			rulePolicyPartition(c)
+			ruleWithinAnchor(c)
 		},
 		Controls: []Control{
+			{Name: "within-anchored-at-future-snapshot", File: "internal/data/snapshot_policy.go",
+				Old: "		if sn.Time.After(latest) && sn.Time.Before(now) {", New: "		if sn.Time.After(latest) {\n			_ = now", Rule: "within-anchor"},
 			{Name: "weekly-uses-month-bucket", File: "internal/data/snapshot_policy.go",
 				Old: "		{p.Weekly, yw, -1, \"weekly snapshot\"},", New: "		{p.Weekly, ym, -1, \"weekly snapshot\"},", Rule: "bucket-table"},
 			{Name: "daily-bucket-ignores-month", File: "internal/data/snapshot_policy.go",
@@ -201,13 +207,14 @@ func init() {
 	})
 	register(&Property{
 		ID: "C25",
-		Explanation: "Decides the effect clause, not the resulting tag list: (tag-effects) the call closure of changeTags stores to no field of data.Snapshot other than Tags and Original (every other field of the snapshot is unchanged by construction); Tags is assigned the --set list only on the len(setTags)!=0 edge and AddTags/RemoveTags run only on the other edge; runTag rejects conflicting options; (replace-order) the retagged snapshot is saved before the old one is removed, so the number of snapshots never drops; (set-always-persisted) on the len(setTags)!=0 edge sn.Tags is assigned the --set list itself (nil for the single empty string) and every successful return passes SaveSnapshot — skipping the save is accepted only behind an exact equality test (slices.Equal / reflect.DeepEqual) of old and new list — added after a seeded change that skipped the save for set-equal lists. Not decided: the resulting tag list of --add/--remove — reading the code showed that Snapshot.RemoveTags stops after the first match, so a duplicated tag [a,a] survives `tag --remove a` (documented in DESIGN.md §5 as an observation; no sound structural rule decides it).",
+		Explanation: "Decides the effect clause, not the resulting tag list: (tag-effects) the call closure of changeTags stores to no field of data.Snapshot other than Tags and Original (every other field of the snapshot is unchanged by construction); Tags is assigned the --set list only on the len(setTags)!=0 edge and AddTags/RemoveTags run only on the other edge; runTag rejects conflicting options; (replace-order) the retagged snapshot is saved before the old one is removed, so the number of snapshots never drops; (set-always-persisted) on the len(setTags)!=0 edge sn.Tags is assigned the --set list itself (nil for the single empty string) and every successful return passes SaveSnapshot — skipping the save is accepted only behind an exact equality test (slices.Equal / reflect.DeepEqual) of old and new list — added after a seeded change that skipped the save for set-equal lists; (add-only-absent-tags) AddTags does not append a tag once an existing tag compared equal to it (RemoveTags removes one occurrence per tag, which is only right while lists hold no duplicates) — added after a seeded change that turned `continue nextTag` into `break`. Not decided: the resulting tag list of --add/--remove — reading the code showed that Snapshot.RemoveTags stops after the first match, so a duplicated tag [a,a] survives `tag --remove a` (documented in DESIGN.md §5 as an observation; no sound structural rule decides it).",
 		Assumptions: commonAssumptions,
 		Technique:   "static analysis: field-store effects over the call closure of changeTags + CFG edge cuts (go/ssa)",
 		Run: func(c *eng.Ctx) {
 			ruleTagEffects(c)
 			ruleReplaceOrder(c)
 			ruleSetAlwaysPersisted(c)
+			ruleAddOnlyAbsentTags(c)
 		},
 		Controls: []Control{
 			{Name: "set-skipped-when-first-tag-equal", File: "cmd/restic/cmd_tag.go",
